@@ -4,6 +4,8 @@ import GcmpyModel.Driver.Gen
 import GcmpyModel.Driver.C04
 import GcmpyModel.Driver.C05
 import GcmpyModel.Driver.Loaders
+import GcmpyModel.Driver.C18
+import GcmpyModel.Driver.Mix
 /-! Line protocol: one JSON request per line on stdin, one JSON reply per line on stdout.
     The driver only *executes* the model's definitions; it is outside the proofs. -/
 open Lean Gcmpy.Driver
@@ -18,6 +20,9 @@ def dispatch (j : Json) : R Json := do
   | "c06" => Loaders.c06 j
   | "c07" => Loaders.c07 j
   | "c08" => Loaders.c08 j
+  | "c18" => C18.handle j
+  | "c13" => Mix.c13 j
+  | "c14" => Mix.c14 j
   | "ping" => pure (obj [("pong", Json.bool true)])
   | _ => throw s!"unknown op {op}"
 
